@@ -10,6 +10,7 @@ SEEDS="$@"; [ -n "$SEEDS" ] || SEEDS=$(ls -d /verif/seeded/C*-* | xargs -n1 base
 for s in $SEEDS; do
   D=/verif/seeded/$s; id=${s%%-*}
   git -C $RW checkout -q -- . ; git -C $RW clean -qfd
+  if python3 -c "import json,sys; sys.exit(0 if json.load(open('$D/meta.json')).get('obsolete') else 1)" 2>/dev/null; then echo "$s obsolete" >> $OUT.tmp; echo "$s obsolete"; continue; fi
   git -C $RW apply $D/patch.diff || { echo "$s patch-does-not-apply" >> $OUT.tmp; continue; }
   extra=$(python3 -c "import json,sys; print(' '.join(json.load(open('$D/meta.json')).get('also_checks',[])))" 2>/dev/null)
   line="$s"
